@@ -534,3 +534,4 @@ PROP = Prop(
           Sub('mapped_all', body_mapped, cases=mapped_enum_cases, max_shards=16),
           Sub('duality', body_dual, cases=dual_cases, max_shards=16)],
     design_ref='DESIGN.md section 6, C09')
+PROP.rule += ('. Added in round 2: ElementHexC1 on an affine box (two local functions in the quick tier, all 64 in the thorough tier; 11 s each); defining functionals of ElementGlobal elements also on a parallelogram and a general quadrilateral.')
